@@ -322,6 +322,9 @@ def replay(path: Path) -> int:
     for fi in r.get("failing_inputs", []):
         if "case" not in fi:
             continue
+        if "lineup" not in fi["case"]:       # a failing input of one of the seed-determined streams (real losses inside a calibration, ...)
+            from vp.core import rerun_by_seed
+            return rerun_by_seed("C02", r)
         scn = scn_from_json(fi["case"])
         _, _, errs = run_with_oracle(None, scn, "replay")
         print("REPLAY", fi["what"][:120], "->", "still fails" if errs else "passes now")
